@@ -649,6 +649,9 @@ func solveModel(ss *SolverSet, asserts []*Term, names []string, nts []*Term, ext
 			res.Status = "unsat"
 			return res
 		}
+		if v.Result == "sat" && v.Model == nil && len(gv) == 0 {
+			v.Model = []string{}
+		}
 		if v.Result != "sat" || v.Model == nil {
 			res.Status = "inconclusive"
 			res.Reason = "no solver produced a model"
